@@ -293,6 +293,37 @@ func c17() []*Ob {
 				if n == 0 {
 					c.Undecided("alias:SetMultiple:params", fn.Pos(), "SetMultiple has no slice parameters any more")
 				}
+				// ... and its result is the caller's alone: the returned slice is not (a view of) memory kept in the
+				// DocsPositions, which the next SetMultiple on the same fraction — another index worker — refills
+				// while this caller is still reading it, after the lock is gone
+				for _, b := range fn.Blocks {
+					ret, ok := b.Instrs[len(b.Instrs)-1].(*ssa.Return)
+					if !ok || len(ret.Results) == 0 {
+						continue
+					}
+					if _, isSlice := ret.Results[0].Type().Underlying().(*types.Slice); !isSlice {
+						continue
+					}
+					shared := DerivesFrom(ret.Results[0], func(v ssa.Value) bool {
+						fa, ok := v.(*ssa.FieldAddr)
+						if !ok {
+							return false
+						}
+						if _, isSl := fa.Type().(*types.Pointer).Elem().Underlying().(*types.Slice); !isSl {
+							return false
+						}
+						return DerivesFromNoCall(fa.X, func(x ssa.Value) bool { return x == ssa.Value(fn.Params[0]) })
+					})
+					pos := ret.Pos()
+					if !pos.IsValid() {
+						pos = fn.Pos()
+					}
+					if shared {
+						c.Violation("alias:SetMultiple:result-shared", pos, "DocsPositions.SetMultiple returns a slice that lives in the DocsPositions itself: it is filled under the lock but read by the caller (length test, collector.Filter) after the lock is released, when another index worker's SetMultiple on the same fraction may already be overwriting it — the new documents of a partly repeated bulk then get a position but no LIDs and no tokens")
+					} else {
+						c.Site(pos, "the result of SetMultiple is memory of this call")
+					}
+				}
 			}},
 		{Prop: "C17", ID: "C17.6", Engine: "PAIR(key)", Floor: 1,
 			Desc:  "a re-delivered document that landed on another store is still one document: the repetition test of the result merge compares the document id only, never the source (shared rule with C05.6)",
